@@ -172,6 +172,8 @@ func mkBin(op string, a, b *Term) *Term {
 	if x, ok := a.IntConst(); ok {
 		if y, ok2 := b.IntConst(); ok2 {
 			switch op {
+			case "-":
+				return &Term{Op: "const", Aux: strconv.FormatInt(x-y, 10)}
 			case "==":
 				return boolT(x == y)
 			case "!=":
@@ -354,4 +356,29 @@ func Atom(c *Term) (*Term, bool) {
 		}
 		return c, pol
 	}
+}
+
+// MkBin builds the normalised binary term (exported for rule packs that evaluate an atom under an assumption).
+func MkBin(op string, a, b *Term) *Term { return mkBin(op, a, b) }
+
+// Rebuild re-normalises t bottom-up (after a substitution made some operands constant).
+func Rebuild(t *Term) *Term {
+	if t == nil || len(t.Args) == 0 {
+		return t
+	}
+	args := make([]*Term, len(t.Args))
+	for i, a := range t.Args {
+		args[i] = Rebuild(a)
+	}
+	switch {
+	case t.Op == "bin" && len(args) >= 2:
+		r := mkBin(t.Aux, args[0], args[1])
+		for _, x := range args[2:] {
+			r = mkBin(t.Aux, r, x)
+		}
+		return r
+	case t.Op == "un" && t.Aux == "!" && len(args) == 1 && args[0].IsConst() && (args[0].Aux == "true" || args[0].Aux == "false"):
+		return boolT(args[0].Aux == "false")
+	}
+	return &Term{Op: t.Op, Aux: t.Aux, Args: args, Fn: t.Fn, Typ: t.Typ, Src: t.Src, Owner: t.Owner, Meth: t.Meth}
 }
